@@ -25,7 +25,7 @@ type config struct {
 	Depth   int    `json:"depth"`
 }
 
-var symNames = []string{"W(shape0)", "W(shape3:one-byte-ext)", "W(shape1:csrc)", "R(shape0)", "R(shape4:two-byte-ext)", "RTCP(NACK all sent)", "RTCP(TWCC)", "WriteRTCP(PLI)", "Tick", "Drain(1s)"}
+var symNames = []string{"W(shape0)", "W(shape3:one-byte-ext)", "W(shape1:csrc)", "R(shape0)", "R(shape4:two-byte-ext)", "RTCP(NACK all sent)", "RTCP(TWCC)", "WriteRTCP(PLI)", "Tick", "Drain(1s)", "W(shape0, 1461-byte payload)"}
 
 // emitted is everything observable that derives from packet contents.
 type emitted struct {
@@ -56,17 +56,24 @@ func run(c config, hist []int, reuse bool) (*emitted, *vsched.Result) {
 		l1, r1 := s.Locals[1], s.Remotes[1]
 		// the reused caller-owned objects
 		hdr := &rtp.Header{}
-		payload := make([]byte, 0, 1500)
+		payload := make([]byte, 0, 1500) // 1461 is the largest payload written
 		rbuf := make([]byte, 1500)
 		rtcpBuf := make([]byte, 1500)
 		var sent []uint16
 		wseq, rseq := uint16(1000), uint16(2000)
 		for _, a := range hist {
 			switch a {
-			case 0, 1, 2:
-				shape := []int{0, 3, 1}[a]
+			case 0, 1, 2, 10:
+				shape := []int{0, 3, 1}[a%10]
 				wseq++
 				h, p := hk.Shape(shape, l1.Info.SSRC, wseq, uint32(wseq)*3000)
+				if a == 10 {
+					// one byte more than the 1460-byte buffers the pacers and the responder pool
+					p = make([]byte, 1461)
+					for j := range p {
+						p[j] = byte(j*7) ^ byte(wseq)
+					}
+				}
 				_ = h.SetExtension(hk.TwccExtID, []byte{byte(wseq >> 8), byte(wseq)})
 				sent = append(sent, wseq)
 				if reuse {
@@ -281,7 +288,7 @@ func configs(tier string) []config {
 func init() {
 	hk.Register(&hk.Check{
 		ID: "C13",
-		Rule: "E2 differential search: for every interceptor (every option variant except the responder's documented DisableCopy) all histories up to the depth over 10 symbols (writes of three header shapes, reads of two, RTCP NACK-for-everything-sent / TWCC, application RTCP write, tick, drain) are executed twice - fresh allocations per call vs. one header/payload/read buffer reused and overwritten right after each call returns, with the application thread scheduled ahead of the interceptor's goroutines - " +
+		Rule: "E2 differential search: for every interceptor (every option variant except the responder's documented DisableCopy) all histories up to the depth over 11 symbols (writes of three header shapes and of a 1461-byte payload, reads of two, RTCP NACK-for-everything-sent / TWCC, application RTCP write, tick, drain) are executed twice - fresh allocations per call vs. one header/payload/read buffer reused and overwritten right after each call returns, with the application thread scheduled ahead of the interceptor's goroutines - " +
 			"and everything emitted (packets at the transport, dumps, statistics) must be identical, the payload unchanged at return; a history is non-trivial if anything was emitted; states are distinct emitted transcripts",
 		Assumptions: []string{"vsched model (litmus suite)", "in-place modification of the caller's header during the call (the transport-cc extension) is not judged"},
 		Jobs: func(tier string) []string {
